@@ -1984,10 +1984,36 @@ CHECKS: Dict[str, Callable[[str, int], int]] = {"C01": check_C01, "C02": check_C
 
 
 
+def replay(prop: str, path: str) -> int:
+    """re-run one recorded violation: print the record; when it carries an input file, load it with the
+    implementation (dev build) and with the model and show both observations' first difference"""
+    rec = json.load(open(path))
+    print(json.dumps({k: v for k, v in rec.items() if k != "input_file"}, indent=1)[:4000])
+    inp = rec.get("input_file")
+    if not inp or not os.path.exists(inp):
+        print("replay: no input file recorded (theorem / correspondence level finding)")
+        return 1
+    vplib.build_harness(["dev"])
+    vplib.build_model()
+    w = Work("replay")
+    try:
+        ib = vplib.impl_observe("dev", [inp], w.dir, 31, max_frames=4, max_layers=6)
+        mb = vplib.model_observe([inp], w.dir, 15, max_frames=4, max_layers=6)
+        print("implementation outcome:", outcome(ib[0]), ib[0][1][:3] if ib[0] else None, "section panic:", vplib.section_panic(ib[0]))
+        print("model outcome:", outcome(mb[0]), "section panic:", vplib.section_panic(mb[0]))
+        d = same_block(ib[0], mb[0])
+        print("model vs implementation:", d if d else "identical observations")
+        return 1 if (d or outcome(ib[0]) == 9 or vplib.section_panic(ib[0]) is not None) else 0
+    finally:
+        w.cleanup()
+
+
 def main(argv: List[str]) -> int:
     if len(argv) < 2 or argv[1] not in CHECKS:
         print("usage: check <%s> [--tier quick|thorough]" % "|".join(sorted(CHECKS)), file=sys.stderr)
         return 2
+    if "--replay" in argv:
+        return replay(argv[1], argv[argv.index("--replay") + 1])
     tier = os.environ.get("VERIF_TIER", "quick")
     if "--tier" in argv:
         tier = argv[argv.index("--tier") + 1]
